@@ -6,6 +6,8 @@ import Driver.Receiver
 import Driver.Config
 import Driver.Route
 import Driver.Producer
+import Driver.EsSink
+import Driver.RateLimit
 /-!
 fbdriver: reads `<id>\t<input>\t<impl observation>` lines on stdin, runs the model of the chosen
 component on `<input>` and prints one verdict line per case:
@@ -27,6 +29,8 @@ def dispatch (comp : String) : Option (String → String → Verdict) :=
   | "config" => some Config.check
   | "route" => some Route.check
   | "producer" => some Producer.check
+  | "essink" => some EsSink.check
+  | "ratelimit" => some Limiter.check
   | _ => none
 
 partial def loop (h : IO.FS.Stream) (out : IO.FS.Stream) (f : String → String → Verdict) : IO Unit := do
